@@ -1,0 +1,28 @@
+// Copyright © 2022-2026 Obol Labs Inc. Licensed under the terms of a Business Source License 1.1
+
+//go:build verif
+
+package sse
+
+import (
+	"context"
+	"time"
+)
+
+// This file is only compiled with the "verif" build tag. It lets the verification harness feed a
+// chain_reorg event to the listener's own handler without a beacon node. It adds no behaviour.
+
+// NewListenerVerif returns a listener for a chain with the given slots per epoch.
+func NewListenerVerif(slotsPerEpoch uint64) Listener {
+	return &listener{
+		chainReorgSubs:   make([]ChainReorgEventHandlerFunc, 0),
+		headSubs:         make([]HeadEventHandlerFunc, 0),
+		blockGossipTimes: make(map[uint64]map[string]time.Time),
+		slotsPerEpoch:    slotsPerEpoch,
+	}
+}
+
+// HandleChainReorgEventVerif is handleChainReorgEvent for a raw event payload.
+func HandleChainReorgEventVerif(ctx context.Context, l Listener, data []byte) error {
+	return l.(*listener).handleChainReorgEvent(ctx, &event{Event: "chain_reorg", Data: data}, "verif")
+}
